@@ -178,6 +178,9 @@ class View:
     def _wrap(self, v):
         if isinstance(v, Ref):
             cell = self._heap[v.id]
+            if type(cell).__name__ == 'ViewCell':
+                base = self._wrap(cell.base)
+                return Arr(cell.shape, lambda ix, base=base, cell=cell: base.elem(cell.mapfn(ix)), cell.kind)
             if isinstance(cell, Arr):
                 return cell
             if isinstance(cell, Obj):
@@ -378,7 +381,10 @@ class Ctx:
     def func(self, name, *sorts):
         """named uninterpreted spec function (e.g. an abstract cross-section table)"""
         if self.mode == 'conc':
-            raise EngineError('uninterpreted function %s has no concrete meaning' % name)
+            f = getattr(self, 'concrete_funcs', {}).get(name)
+            if f is None:
+                raise EngineError('uninterpreted function %s has no concrete meaning' % name)
+            return f
         if name not in self.uf:
             self.uf[name] = z3.Function(name, *sorts)
         return self.uf[name]
